@@ -211,6 +211,55 @@ def refine_model(ex, m, neg):
                 extra.append(z3.Sum(parts) % R == 0)
     return extra
 
+def refine_products(ex, m, neg):
+    """Counterexamples in the polynomial domain: the solver treats every product monomial as an independent
+    unknown, so its model need not be consistent with real field arithmetic. Fix random values for all scalar
+    generators the harness chooses ('fr...') except one, express every monomial through that one (linear),
+    and let the solver solve for it: the resulting model is a real assignment and replays natively."""
+    st = ex.pstate.get('galg')
+    if not st:
+        return None
+    import random as _r
+    monos = list(st['mvars'].keys())
+    gens = sorted(set(g for mo in monos for g in mo if controllable(g)), key=lambda g: int(''.join(ch for ch in g if ch.isdigit()) or 0))
+    if len(gens) < 2 or not any(len(mo) >= 2 for mo in monos):
+        return None
+    rng = _r.Random(ex.seed + 4242)
+    for free in reversed(gens[-3:]):
+        vals = {g: rng.randrange(2, 1 << 62) for g in gens if g != free}
+        extra = []
+        ok = True
+        for mo in monos:
+            if not all(controllable(g) for g in mo):
+                continue          # monomials with hash / decoded generators are handled by refine_model
+            k = sum(1 for g in mo if g == free)
+            c = 1
+            for g in mo:
+                if g != free:
+                    c = c * vals[g] % R
+            v = mvar(ex, mo)
+            if k == 0:
+                extra.append(v == c)
+            elif k == 1:
+                extra.append(v == (z3.IntVal(c) * mvar(ex, (free,))) % R)
+            else:
+                ok = False
+                break
+        if not ok:
+            continue
+        ex.solver.push()
+        try:
+            if neg is not None:
+                ex.solver.add(neg)
+            for e in extra:
+                ex.solver.add(e)
+            r = ex.solver.check()
+        finally:
+            ex.solver.pop()
+        if r == z3.sat:
+            return extra
+    return None
+
 def new_gen(ex, prefix):
     st = G(ex)
     st['gens'] += 1
@@ -522,6 +571,22 @@ def st_read_bytes(kind):
             if e is not None:
                 ge_write(ex, out, e)
                 return 0
+        # flipping the sort bit (0x20 of the first byte) of a canonical non-infinity encoding gives the canonical
+        # encoding of the negated point (no point of E1 / E2 has y = 0): recognised for the encodings produced on
+        # this path
+        if st['dec'].get(B) is None and not (z3.is_app(B) and B.decl().eq(F)):
+            MASK = z3.BitVecVal(0x20 << (w - 8), w)
+            for lst in list(st['encoded'].d.values()):
+                for (t2, e2) in lst:
+                    if e2.kind != kind or isinstance(t2, int) or t2.size() != w:
+                        continue
+                    if ex.must(B == (t2 ^ MASK)):
+                        ne = elem(ex, kind, -e2.dlog, -e2.tors, True)
+                        ex.add(F(ne.id) == B)
+                        if st['encoded'].get(F(ne.id)) is None:
+                            st['encoded'].set(F(ne.id), ne)
+                        ge_write(ex, out, ne)
+                        return 0
         e = st['dec'].get(B)
         if e is None:
             gd, gt = new_gen(ex, 'dec'), new_gen(ex, 'tor')
@@ -853,6 +918,7 @@ TRUSTED = [
  'POINTonE1/E2 dadd, double, cneg, mult_glv/gls, from_Jacobian, is_equal, in_G1/in_G2, blst_p1s_mult_pippenger: group law on (discrete log, torsion part) as exact polynomials over Z_r',
  'map_to_g1: torsion-free point with one fresh discrete-log generator per distinct (u0,u1); never the identity',
  'miller_loop_n + mul_fp12 + final_exp: exponent = sum of products of the discrete logs of the prime-order parts (cofactor-torsion parts, of order coprime to r, pair to one -- which is why a missing subgroup check makes s+T a second valid signature); result is one iff the exponent vanishes (non-degeneracy)',
+ 'E1/E2_read_bytes of an encoding produced on the path with its sort bit (0x20 of byte 0) flipped: the negated point (no point has y = 0)',
  'E1/E2_read_bytes, E1/E2_write_bytes: the canonical-encoding contract that check C05 establishes for the real functions (accepted strings are exactly the canonical encodings; decode(encode(P)) = P; infinity = C0 00..00)',
  'Fr arithmetic (add/sub/neg/Montgomery product by exact scaling with the constant R^-1 mod r) on polynomial scalars; modular inverse only of concrete values',
  'each distinct monomial is one integer unknown for the solver (relations between monomials other than zero-divisor and unit facts are forgotten: unsat is sound, sat is confirmed by native replay)',
